@@ -200,3 +200,31 @@ Qed.
 
 Example fault_outcomes_ex : fst (fault_outcomes [3; 0]) = 11.
 Proof. vm_compute. reflexivity. Qed.
+
+(** ** result sets that break off: what the contract needs and what inspect.go does
+    A statement's answer arrives row by row; the engine may report an error after [j] rows
+    ([break = Some j]; SQLite reports "database is locked" from the first step, j = 0, not from the
+    query call).  database/sql ends the [for rows.Next()] loop in both cases and keeps the error in
+    [rows.Err()]. *)
+Definition next_loop {T : Type} (rows : list T) (break : option nat) : list T * bool :=
+  match break with
+  | None => (rows, false)
+  | Some j => (firstn j rows, true)
+  end.
+(** the loop followed by [if err := rows.Err(); err != nil { return err }]: a [Read] of [prog] *)
+Definition read_rows_checked {T : Type} (rows : list T) (break : option nat) : option (list T) :=
+  let (l, e) := next_loop rows break in if e then None else Some l.
+(** the loops of sql/sqlite/inspect.go: no look at [rows.Err()] *)
+Definition read_rows_unchecked {T : Type} (rows : list T) (break : option nat) : option (list T) :=
+  Some (fst (next_loop rows break)).
+
+Lemma read_rows_checked_fails_or_same {T : Type} (rows : list T) break :
+  read_rows_checked rows break = None \/ read_rows_checked rows break = Some rows.
+Proof. destruct break; cbn; auto. Qed.
+
+(** unchecked: a locked table-list statement reads as "no tables" *)
+Lemma read_rows_unchecked_refuted {T : Type} (x : T) (rows : list T) :
+  read_rows_unchecked (x :: rows) (Some 0) = Some [] /\
+  read_rows_unchecked (x :: rows) (Some 0) <> None /\
+  read_rows_unchecked (x :: rows) (Some 0) <> Some (x :: rows).
+Proof. cbn. repeat split; discriminate. Qed.
